@@ -65,6 +65,16 @@ def gen(rng, tier):
         for f in feats:
             if rng.random() < 0.5:
                 f["attrs"].append(["odd", [rng.choice(["a\u2028b", "x\x85y", "p\u2029q", "v\x1cw"])]])
+    raw_eq = False
+    if fmt == "gff3" and rng.random() < 0.15:
+        raw_eq = True  # '=' inside a value, written unescaped
+        for f in feats:
+            if rng.random() < 0.6:
+                f["attrs"].append(["Note", [rng.choice(["identity=99.5|escore=2e-10", "a=b", "k=v=w"])]])
+    if fmt == "gff3" and rng.random() < 0.12:
+        # the file starts with features that have no attributes at all (longer than any peek window, sometimes)
+        for f in feats[:rng.choice([1, 2, 3, 12])]:
+            f["attrs"] = []
     n = len(feats)
     tr = rng.choice([None, None, {"kind": "identity"}, {"kind": "tag", "key": "tag", "val": "x"}, {"kind": "shift", "by": 3},
                      {"kind": "append_inplace", "key": rng.choice(["Name", "Parent", "note"]), "val": "zz"},
@@ -99,7 +109,7 @@ def gen(rng, tier):
         # long source: make sure the "source modified while it is read" scenario is exercised across any internal batching
         tr = None
         db_delete_at = rng.choice([3, 500, 1005])
-    return {"fmt": fmt, "feats": feats, "transform": tr, "checklines": rng.choice([0, 1, 2, 10]), "variants": variants,
+    return {"fmt": fmt, "raw_eq": raw_eq, "feats": feats, "transform": tr, "checklines": rng.choice([0, 1, 2, 10]), "variants": variants,
             "streams": streams, "inspect": insp,
             "string_extras": {"pair": rng.random() < 0.3, "read_first": rng.random() < 0.5, "torn_then_reimport": rng.random() < 0.2,
                               "short_writes": rng.random() < 0.3, "checklines": rng.choice([0, 1, 10])},
@@ -111,6 +121,8 @@ def gen(rng, tier):
 
 
 def _d(case):
+    if case.get("raw_eq"):
+        return dict(G.DEFAULT_GFF3, raw_eq=True)
     return G.DEFAULT_GFF3 if case["fmt"] == "gff3" else G.DEFAULT_GTF
 
 
